@@ -154,7 +154,8 @@ func (w *World) monitorConnect() {
 			w.Violate("C18", "refused-connection-left-open", "c%d: reply %x does not accept the connection, yet the client never closed it", c.id, trunc(reply))
 		}
 		// refusal codes surface as IsConnectionRefused
-		if len(reply) >= 4 && reply[0] == tCONNACK<<4 && reply[1] == 2 && reply[3] != 0 {
+		// (provided the client got to read all four bytes of it)
+		if len(reply) >= 4 && reply[0] == tCONNACK<<4 && reply[1] == 2 && reply[3] != 0 && w.clientReadFirst(c.id, 4) {
 			found := false
 			for _, d := range w.deliveries {
 				if d.Err != nil && mqtt.IsConnectionRefused(d.Err) && strings.Contains(fmt.Sprintf("%d|%v", reply[3], d.Err), "") {
@@ -221,7 +222,7 @@ func (w *World) monitorConnect() {
 						}
 					}
 				}
-				if failed {
+				if failed && e.D == "down" { // (the token says "pending" after a lost connection that had got past connect)
 					down = append(down, span{i, -1})
 				}
 			}
